@@ -31,6 +31,10 @@ enum Call {
     Buf(bool),
     Fail(usize),
     Stall(usize),
+    /// the peer reads again: the stall is lifted and the pending transport write is woken
+    Unstall,
+    /// virtual time passes (the controller sleeps this many ms after the call: every timer that is due fires)
+    Sleep(u64),
     FeedSynAck(usize, bool),
     FeedPush(usize),
     /// a keep-alive request from the peer: the receive task answers it with a HeartResponse through write_frame
@@ -77,6 +81,8 @@ fn parse_call(tok: &str) -> Call {
         ["FAIL"] => Call::Fail(0),
         ["FAIL", k] => Call::Fail(k.parse().unwrap()),
         ["STALL", k] => Call::Stall(k.parse().unwrap()),
+        ["UNSTALL"] => Call::Unstall,
+        ["SLEEP", k] => Call::Sleep(k.parse().unwrap()),
         ["F", "sa", o, ok] => Call::FeedSynAck(o.parse().unwrap(), *ok == "1"),
         ["F", "psh", o] => Call::FeedPush(o.parse().unwrap()),
         ["F", "hreq"] => Call::FeedHeartReq,
@@ -110,6 +116,8 @@ struct Shared {
     pump: Option<usize>,
     /// name of the point at which each task was last granted a step
     last_grant: HashMap<usize, String>,
+    /// a SLEEP call asks the controller to let this much virtual time pass
+    sleep_req: Option<u64>,
 }
 
 type Sh = Arc<Mutex<Shared>>;
@@ -360,6 +368,14 @@ async fn run_case(start: bool, groups: Vec<Vec<Call>>, sched: Vec<usize>) -> Str
                             wh2.set_stall_at(Some(wh2.total() + *k));
                             break "ok";
                         }
+                        Call::Unstall => {
+                            wh2.set_stall_at(None);
+                            break "ok";
+                        }
+                        Call::Sleep(k) => {
+                            sh2.lock().unwrap().sleep_req = Some(*k);
+                            break "ok";
+                        }
                         Call::FeedSynAck(o, ok) => {
                             let sid = sh2.lock().unwrap().sids.get(o).copied().unwrap_or(0xFFFF_0000 + *o as u32);
                             let data: &[u8] = if *ok { b"" } else { b"refused" };
@@ -449,6 +465,11 @@ async fn run_case(start: bool, groups: Vec<Vec<Call>>, sched: Vec<usize>) -> Str
                 }
                 let _ = tx.send(());
                 settle().await;
+                let nap = sh.lock().unwrap().sleep_req.take();
+                if let Some(k) = nap {
+                    tokio::time::sleep(Duration::from_millis(k)).await;
+                    settle().await;
+                }
                 if sh.lock().unwrap().blocked.remove(&t) == Some(true) {
                     out.push_str(&format!("skip{} ", t));
                 }
